@@ -30,8 +30,6 @@ FORBIDDEN = re.compile(
     r"Admit\s+Obligations|bypass_check|Hypothesis|Hypotheses|Variable|Variables)\b|Unset\s+Guard|"
     r"Unset\s+Positivity|Unset\s+Universe\s+Checking|type-in-type|impredicative-set"
 )
-# Variable/Hypothesis are allowed only inside a Section: files that use them are listed here
-SECTION_VARS_OK = {"Base/Deque.v", "Model/SliceIter.v", "Proofs/SliceIterProofs.v"}
 
 ALLOWED_AXIOMS = set()  # goal: every property theorem is closed under the global context
 
@@ -105,13 +103,24 @@ def forbidden_scan():
         rel = os.path.relpath(p, COQ)
         txt = open(p, errors="replace").read()
         txt = strip_comments(txt)
+        spans = section_spans(txt)
         for m in FORBIDDEN.finditer(txt):
             w = m.group(0)
-            if re.match(r"(Variable|Variables|Hypothesis|Hypotheses)$", w) and rel in SECTION_VARS_OK:
-                continue
+            if re.match(r"(Variable|Variables|Hypothesis|Hypotheses)$", w) and any(a <= m.start() < b for a, b in spans):
+                continue    # Section variables are discharged when the Section closes
             line = txt.count("\n", 0, m.start()) + 1
             hits.append("%s:%d:%s" % (rel, line, w))
     return hits
+
+
+def section_spans(txt):
+    """character spans between `Section X.` and the matching `End X.`"""
+    spans = []
+    for m in re.finditer(r"\bSection\s+([A-Za-z0-9_']+)\s*\.", txt):
+        e = re.search(r"\bEnd\s+%s\s*\." % re.escape(m.group(1)), txt[m.end():])
+        if e:
+            spans.append((m.start(), m.end() + e.end()))
+    return spans
 
 
 def strip_comments(txt):
@@ -257,37 +266,68 @@ def harness_bin(release=False):
     return os.path.join(TARGET, "release" if release else "debug", "kv_harness")
 
 
-def run_correspondence(group, tier, seed, release=False, timeout=3000, extra_env=None):
-    """harness | driver. Returns (summary dict | None, error string)."""
+def produce_lines(group, tier, seed, release=False, timeout=3000):
+    """Run one line producer, return (path of the lines file | None, error).
+    A group is either the name of a sub-command of the Rust harness, or "gen:<module>"
+    naming a Python module in lib/gen/ with produce(tier, seed, release, out_path) -> error string
+    (generated Rust programs compiled against /repo, compile-fail families, ...)."""
+    os.makedirs(BUILD, exist_ok=True)
+    out_path = os.path.join(BUILD, "lines_%s_%s_%d.tsv" % (group.replace(":", "_"), "rel" if release else "dev", os.getpid()))
+    if group.startswith("gen:"):
+        import importlib
+        sys.path.insert(0, os.path.join(VERIF, "lib"))
+        mod = importlib.import_module("gen." + group[4:])
+        try:
+            err = mod.produce(tier, seed, release, out_path)
+        except subprocess.TimeoutExpired:
+            err = "generated-program producer timed out"
+        if err:
+            return None, err
+        return out_path, ""
     hb = harness_bin(release)
+    with open(out_path, "w") as f:
+        try:
+            p = subprocess.run([hb, group, tier, str(seed)], stdout=f, stderr=subprocess.PIPE, env=env_base(), timeout=timeout)
+        except subprocess.TimeoutExpired:
+            return None, "harness timed out"
+    if p.returncode != 0:
+        return None, "harness exited with %s: %s" % (p.returncode, p.stderr.decode(errors="replace")[-800:])
+    return out_path, ""
+
+
+def run_driver(lines_path, timeout=3000, keep_dump=True):
+    """pipe a lines file through the extracted model. Returns (summary | None, error, model dump path)."""
     drv = os.path.join(OCAML_BUILD, "driver")
     env = env_base()
-    if extra_env:
-        env.update(extra_env)
-    dump = os.path.join(BUILD, "model_%s_%s_%d.tsv" % (group, "rel" if release else "dev", os.getpid()))
-    env["KV_DUMP_MODEL"] = dump
+    dump = lines_path + ".model"
+    if keep_dump:
+        env["KV_DUMP_MODEL"] = dump
     try:
-        h = subprocess.Popen([hb, group, tier, str(seed)], stdout=subprocess.PIPE, stderr=subprocess.PIPE, env=env)
-        d = subprocess.Popen([drv], stdin=h.stdout, stdout=subprocess.PIPE, stderr=subprocess.PIPE, env=env)
-        h.stdout.close()
-        out, derr = d.communicate(timeout=timeout)
-        herr = h.stderr.read().decode(errors="replace")
-        h.wait(timeout=60)
+        with open(lines_path) as f:
+            p = subprocess.run([drv], stdin=f, stdout=subprocess.PIPE, stderr=subprocess.PIPE, env=env, timeout=timeout)
     except subprocess.TimeoutExpired:
-        for q in (h, d):
-            try:
-                q.kill()
-            except Exception:
-                pass
-        return None, "correspondence run timed out", None
-    if h.returncode != 0:
-        return None, "harness exited with %s: %s" % (h.returncode, herr[-800:]), None
-    if d.returncode != 0:
-        return None, "driver failed: %s" % derr.decode(errors="replace")[-800:], None
+        return None, "driver timed out", None
+    if p.returncode != 0:
+        return None, "driver failed: %s" % p.stderr.decode(errors="replace")[-800:], None
     try:
-        return json.loads(out.decode(errors="replace")), "", dump
+        return json.loads(p.stdout.decode(errors="replace")), "", (dump if keep_dump else None)
     except Exception as ex:
         return None, "driver output unreadable: %s" % ex, None
+
+
+def run_correspondence(group, tier, seed, release=False, timeout=3000):
+    """producer | driver. Returns (summary dict | None, error string, model dump path)."""
+    lines, err = produce_lines(group, tier, seed, release, timeout)
+    if lines is None:
+        return None, err, None
+    try:
+        return run_driver(lines, timeout)
+    finally:
+        if os.environ.get("KV_KEEP_LINES") != "1":
+            try:
+                os.remove(lines)
+            except OSError:
+                pass
 
 
 def vm_crosscheck(dump_path, n=120, timeout=600):
